@@ -116,6 +116,10 @@ family!(cap_absent);
 family!(cap_default, scale_info(capture_docs = "default"));
 family!(cap_always, scale_info(capture_docs = "always"));
 family!(cap_never, scale_info(capture_docs = "never"));
+// user types met first INSIDE built-in constructors, with repetition and sharing: the order in which a
+// constructor's members are registered must be member order, whatever the TypeIds of this build happen to be
+macro_rules! users { ($($n:ident),*) => { $( #[derive(TypeInfo)] struct $n { v: u8 } )* } }
+users!(U1, U2, U3, U4, U5, U6, U7, U8, U9, U10, U11, U12);
 trait Cfg { type A; }
 struct CfgImpl;
 impl Cfg for CfgImpl { type A = u32; }
@@ -144,6 +148,8 @@ fn corpus() -> Vec<MetaType> {
 }
 fn base_corpus() -> Vec<MetaType> {
     vec![
+        meta_type::<(U1, U2, U1)>(), meta_type::<(U4, U3, U4, U3)>(), meta_type::<(U5, U6, U7, U5, U6)>(), meta_type::<(U8, u8, U9, U8)>(),
+        meta_type::<Result<(U10, U11, U10), (U12, U11, U12)>>(), meta_type::<BTreeMap<(U2, U1, U2), [(U3, U3, U4); 2]>>(),
         meta_type::<cap_absent::St>(), meta_type::<cap_absent::Tu>(), meta_type::<cap_absent::En>(),
         meta_type::<cap_default::St>(), meta_type::<cap_default::Tu>(), meta_type::<cap_default::En>(),
         meta_type::<cap_always::St>(), meta_type::<cap_always::Tu>(), meta_type::<cap_always::En>(),
